@@ -350,6 +350,14 @@ func runOperators(r *core.Run) {
 			maps = append(maps, n)
 		}
 	}
+	if len(maps) == 0 {
+		// the lexer does not look operators up in per-form byte maps (one map keyed by (byte, form), a switch, ...):
+		// there is no table to compare; that every operator token returned was spelled by the bytes consumed is
+		// decided path by path by R-SPELL(js)
+		r.Note("T-OPERATORS: no package-level map[byte]TokenType: the per-form operator tables do not exist in this tree; operator spellings are decided by R-SPELL only")
+		r.Count("operator types with a spelling", lexerOps)
+		return
+	}
 	total := 0
 	covered := map[string]bool{}
 	claimed := map[string]string{}
